@@ -72,6 +72,32 @@ func (w *World) tamperXML(m *MsgSpec, sp *SPNode, s *Sent, doc string) string {
 		switch tp.Op {
 		case "field":
 			k, v, _ := strings.Cut(tp.S, "=")
+			if strings.HasPrefix(v, "@acs-") && len(sp.Cfg.ACS) > 0 {
+				// a spelling of one of the SP's registered consumer URLs that is not the registered string
+				reg := sp.Cfg.ACS[mod(tp.A, len(sp.Cfg.ACS))].URL
+				switch v {
+				case "@acs-upper":
+					v = strings.ToUpper(reg)
+				case "@acs-hostcase":
+					v = strings.Replace(reg, "https://sp", "HTTPS://SP", 1)
+				case "@acs-lead-space":
+					v = " " + reg
+				case "@acs-trail-space":
+					v = reg + " "
+				case "@acs-newline":
+					v = reg + "\n"
+				case "@acs-fold":
+					v = strings.Replace(strings.Replace(reg, "s", "\u017f", 1), "k", "\u212a", 1) // long s, Kelvin sign: equal only under Unicode case folding
+				case "@acs-slash":
+					v = reg + "/"
+				case "@acs-pct":
+					v = strings.Replace(reg, "/acs", "/%61cs", 1)
+				}
+				if v == reg {
+					v = reg + "#"
+				}
+				w.probe("request_names_a_respelled_registered_consumer_url")
+			}
 			if root, err := ParseXML([]byte(doc)); err == nil {
 				found := false
 				for i := range root.Attrs {
